@@ -8,7 +8,10 @@
             stable = every object the scanner returned still deep-equals, at the end of the scan,
             the snapshot taken when it was returned.
    Codes:   1  model scan_file (cfg) procs trees <> observed
-            2  property oracle: observed <> filter (keeps cfg) unfiltered, or not stable, or Err() <> nil
+            2  property oracle: observed <> filter (keeps cfg) unfiltered, or not stable, or Err() <> nil,
+               or the unfiltered scan itself is not the sequence the file encodes (so that the
+               subsequence is taken from the right sequence; objects reach the consumer only after
+               their whole block was decoded, so in-block overwrites show up here)
             3  canonical form of a tree <> encode_block of its description
             0  case does not parse *)
 From Coq Require Import ZArith List Bool.
@@ -42,6 +45,7 @@ Definition check_case (t : toks) : list Z :=
   | Some (bs, un, rs) =>
       let trees := map snd bs in
       let j3 := forallb (fun b => msg_eqb (canon_block (snd b)) (encode_block (fst b))) bs in
-      nodup Z.eq_dec (flat_map (run_codes trees (map fst un)) rs ++ code_if j3 3
+      let j2u := objs_eqb (map fst un) (flat_map (fun b => elements (fst b)) bs) && forallb snd un in
+      nodup Z.eq_dec (flat_map (run_codes trees (map fst un)) rs ++ code_if j2u 2 ++ code_if j3 3
                       ++ code_if (negb (match rs with [] => true | _ => false end)) 0)
   end.
